@@ -457,7 +457,7 @@ impl Check for C16 {
             }
         }
         let mut r = g.rng(16);
-        let n = g.count(20_000, 1_000_000);
+        let n = g.count(30_000, 3_000_000);
         for _ in 0..n {
             emit(Case::with("history", vec![], &[r.next() as i64, 60]));
         }
